@@ -709,6 +709,12 @@ where
 		if !c.input_ids.is_empty() {
 			return Err(Error::TransactionAlreadyReceived(ret_slate.id.to_string()));
 		}
+		// the context of a late-locked send of ours that is still pending (no inputs yet either)
+		// is not an invoice issuer's: treated as one below, its blinding key would go out in the
+		// offset of the returned slate, and the context itself would be replaced
+		if c.late_lock_args.is_some() {
+			return Err(Error::TransactionAlreadyReceived(ret_slate.id.to_string()));
+		}
 	}
 
 	let mut context = tx::add_inputs_to_slate(
